@@ -1,8 +1,10 @@
 //! C12 conformance harness: the real `humphrey_ws::async_app::AsyncWebsocketApp` driven by reference
 //! WebSocket clients (RFC 6455: handshake, masked frames, strict parsing of what the server sends).
 //!
-//!   wsasync random <runs> <first-run-id> [maxclients] [chatty]   free-running randomised scenarios (method C);
-//!       the first `chatty` runs have a short heartbeat and one client that keeps sending for 2.5 timeout periods
+//!   wsasync random <runs> <first-run-id> [maxclients] [chatty] [bigpush]   free-running randomised scenarios
+//!       (method C); the first `chatty` runs have a short heartbeat and one client that keeps sending for 2.5
+//!       timeout periods, the next `bigpush` runs push a burst of 256 KiB unicasts / broadcasts at idle clients of
+//!       which one reads late
 //!       stdout: ndjson event log for Trace_WsAsyncApp.tla (one `Reset` record per run) and a final
 //!       {"summary":..} line
 //!   wsasync replay <settle-ms>                          lock-step replay of TLC behaviours (method D)
@@ -211,6 +213,10 @@ struct Ctx {
     /// what the handlers send: for C, M, D a list of "uni" / "bc"
     policy: [Vec<String>; 3],
     big: bool,
+    /// > 0: every server -> client payload is padded to about this many bytes (big-push scenarios)
+    huge: AtomicUsize,
+    /// per client: the reference client's reader does not read while this is set (a late / slow reader)
+    holds: [AtomicBool; MAXC + 1],
 }
 
 static CUR: Mutex<Option<Arc<Ctx>>> = Mutex::new(None);
@@ -218,7 +224,8 @@ static CUR: Mutex<Option<Arc<Ctx>>> = Mutex::new(None);
 impl Ctx {
     fn new(lockstep: bool, policy: [Vec<String>; 3], hsleep_us: usize, big: bool, hb_us: (u64, u64)) -> Arc<Ctx> {
         let st = St { lockstep, ..Default::default() };
-        Arc::new(Ctx { st: Mutex::new(st), cv: Condvar::new(), t0: Instant::now(), hb_us, hsleep_us, policy, big })
+        Arc::new(Ctx { st: Mutex::new(st), cv: Condvar::new(), t0: Instant::now(), hb_us, hsleep_us, policy, big,
+            huge: AtomicUsize::new(0), holds: Default::default() })
     }
     fn now_us(&self) -> u64 {
         self.t0.elapsed().as_micros() as u64
@@ -438,7 +445,7 @@ impl Ctx {
                 m: sc_m.1,
                 j: (j + 1) as i64,
             };
-            let filler = filler_for(&id, self.big);
+            let filler = filler_for(&id, self.big, self.huge.load(Ordering::SeqCst));
             let payload = id.payload(&filler);
             let message = if (id.m + id.j) % 3 == 0 { Message::new_binary(payload.as_bytes()) } else { Message::new(payload.as_bytes()) };
             let mut g = self.lock();
@@ -466,8 +473,11 @@ impl Ctx {
     }
 }
 
-fn filler_for(id: &MsgId, big: bool) -> String {
+fn filler_for(id: &MsgId, big: bool, huge: usize) -> String {
     let h = fnv64(format!("{:?}", id).as_bytes()) as usize;
+    if huge > 0 {
+        return "x".repeat(huge + h % 64);
+    }
     let n = match h % 16 {
         0 => 0,
         1 => 118 + h % 16, // around the 125/126 boundary of the 7-bit length
@@ -524,13 +534,14 @@ fn read_exact_or_eof(s: &mut TcpStream, buf: &mut [u8], stop: &AtomicBool, beat:
     // Ok(true) = filled, Ok(false) = clean EOF before the first byte / stop requested
     let mut got = 0;
     while got < buf.len() {
+        beat(); // also waits while the reader is held (late reader)
         if stop.load(Ordering::SeqCst) {
             return Ok(false);
         }
         let r = s.read(&mut buf[got..]);
         beat();
         match r {
-            Ok(0) => return if got == 0 { Ok(false) } else { Err("eof inside a frame".into()) },
+            Ok(0) => return if got == 0 { Ok(false) } else { Err("fin".into()) },
             Ok(n) => got += n,
             Err(e) if e.kind() == std::io::ErrorKind::WouldBlock || e.kind() == std::io::ErrorKind::TimedOut => continue,
             Err(e) if e.kind() == std::io::ErrorKind::Interrupted => continue,
@@ -543,6 +554,9 @@ fn read_exact_or_eof(s: &mut TcpStream, buf: &mut [u8], stop: &AtomicBool, beat:
 /// strict parser of server -> client frames; logs C_Rx for data frames, answers Pings
 fn reader_loop(ctx: Arc<Ctx>, id: i64, mut s: TcpStream, wr: Arc<Mutex<Option<TcpStream>>>, stop: Arc<AtomicBool>, quiet: Arc<AtomicBool>) {
     let beat = || {
+        while (id as usize) <= MAXC && ctx.holds[id as usize].load(Ordering::SeqCst) && !stop.load(Ordering::SeqCst) {
+            sleep(Duration::from_millis(1));
+        }
         let now = ctx.now_us();
         let mut g = ctx.lock();
         if (id as usize) <= MAXC {
@@ -560,9 +574,16 @@ fn reader_loop(ctx: Arc<Ctx>, id: i64, mut s: TcpStream, wr: Arc<Mutex<Option<Tc
         let mut h = [0u8; 2];
         match read_exact_or_eof(&mut s, &mut h, &stop, &beat) {
             Ok(true) => {}
-            // EOF or a reset connection, also inside a frame (a reset truncates what was in flight): the
-            // stream simply ends here; whether everything had to arrive is decided by the trace spec
-            Ok(false) | Err(_) => break,
+            // EOF between frames, or a reset connection (a reset truncates what was in flight): the stream
+            // simply ends here; whether everything had to arrive is decided by the trace spec.  An orderly
+            // end of stream (FIN) INSIDE a frame means the server wrote only part of a frame: logged.
+            Ok(false) => break,
+            Err(e) => {
+                if e == "fin" {
+                    bad("stream ended (FIN) inside a frame header: truncated frame");
+                }
+                break;
+            }
         }
         let fin = h[0] & 0x80 != 0;
         let rsv = h[0] & 0x70;
@@ -575,13 +596,21 @@ fn reader_loop(ctx: Arc<Ctx>, id: i64, mut s: TcpStream, wr: Arc<Mutex<Option<Tc
         }
         if len == 126 {
             let mut b = [0u8; 2];
-            if read_exact_or_eof(&mut s, &mut b, &stop, &beat) != Ok(true) {
+            let r = read_exact_or_eof(&mut s, &mut b, &stop, &beat);
+            if r != Ok(true) {
+                if !stop.load(Ordering::SeqCst) && (r == Ok(false) || r == Err("fin".to_string())) {
+                    bad("stream ended (FIN) inside a frame: truncated frame");
+                }
                 break;
             }
             len = u16::from_be_bytes(b) as u64;
         } else if len == 127 {
             let mut b = [0u8; 8];
-            if read_exact_or_eof(&mut s, &mut b, &stop, &beat) != Ok(true) {
+            let r = read_exact_or_eof(&mut s, &mut b, &stop, &beat);
+            if r != Ok(true) {
+                if !stop.load(Ordering::SeqCst) && (r == Ok(false) || r == Err("fin".to_string())) {
+                    bad("stream ended (FIN) inside a frame: truncated frame");
+                }
                 break;
             }
             len = u64::from_be_bytes(b);
@@ -591,17 +620,35 @@ fn reader_loop(ctx: Arc<Ctx>, id: i64, mut s: TcpStream, wr: Arc<Mutex<Option<Tc
             break;
         }
         let mut p = vec![0u8; len as usize];
-        if len > 0 && read_exact_or_eof(&mut s, &mut p, &stop, &beat) != Ok(true) {
-            break;
+        if len > 0 {
+            let r = read_exact_or_eof(&mut s, &mut p, &stop, &beat);
+            if r != Ok(true) {
+                if !stop.load(Ordering::SeqCst) && (r == Ok(false) || r == Err("fin".to_string())) {
+                    bad(&format!("stream ended (FIN) inside a frame of {} bytes: truncated frame", len));
+                }
+                break;
+            }
         }
         match opcode {
+            // a data frame counts as received only when its payload is, byte for byte (length + hash), one
+            // that a handler / the external sender handed to the app under that identity
             1 | 2 => match MsgId::parse(&p) {
                 Some(idm) => {
-                    let mut r = idm.fill(rec("C_Rx"));
-                    r.c = id;
-                    ctx.push(r);
+                    let known = ctx.lock().down_tags.get(&tag(&p)) == Some(&idm);
+                    if known {
+                        let mut r = idm.fill(rec("C_Rx"));
+                        r.c = id;
+                        r.n = p.len() as i64;
+                        ctx.push(r);
+                    } else {
+                        bad(&format!("payload of {} bytes differs from what was sent (hash)", p.len()));
+                        break;
+                    }
                 }
-                None => bad("payload not recognised"),
+                None => {
+                    bad("payload not recognised");
+                    break;
+                }
             },
             9 => {
                 let f = frame_bytes(true, 10, &p, [7, 7, 7, 7]);
@@ -693,6 +740,16 @@ impl Client {
         let (c2, w2, s2, q2) = (ctx.clone(), wr.clone(), stop.clone(), quiet.clone());
         let reader = thread::spawn(move || reader_loop(c2, id, rd, w2, s2, q2));
         Ok(Client { id, wr, addr, stop, quiet, reader: Some(reader), sent: 0, rng })
+    }
+
+    /// a small receive buffer: the server's writes fill the path quickly when this client does not read
+    fn small_rcvbuf(&self) {
+        if let Some(s) = self.wr.lock().unwrap_or_else(|e| e.into_inner()).as_ref() {
+            let v: libc::c_int = 65_536;
+            unsafe {
+                libc::setsockopt(s.as_raw_fd(), libc::SOL_SOCKET, libc::SO_RCVBUF, &v as *const _ as *const libc::c_void, std::mem::size_of::<libc::c_int>() as libc::socklen_t);
+            }
+        }
     }
 
     fn write(&self, bytes: &[u8]) {
@@ -909,7 +966,7 @@ impl Server {
 
 fn x_send(ctx: &Arc<Ctx>, sender: &AsyncSender, idx: i64, kind: &str, to: i64, to_addr: Option<SocketAddr>) {
     let id = MsgId { k: kind.to_string(), to: if kind == "uni" { to } else { 0 }, src: "X".into(), sc: 0, m: idx, j: 1 };
-    let payload = id.payload(&filler_for(&id, ctx.big));
+    let payload = id.payload(&filler_for(&id, ctx.big, ctx.huge.load(Ordering::SeqCst)));
     let message = Message::new(payload.as_bytes());
     let mut g = ctx.lock();
     g.down_tags.insert(tag(payload.as_bytes()), id.clone());
@@ -967,7 +1024,12 @@ fn emit(events: &[Rec], run: i64) {
 
 /// `chatty`: heartbeat on with a short period, client 1 keeps sending across more than two timeout periods
 /// (and answers every ping, like every reference client), the others are quiet: nobody may be reaped.
-fn random_run(run: i64, rng: &mut Rng, maxclients: usize, chatty: bool) -> RunOut {
+/// `bigpush`: no heartbeat; the clients sit idle for several poll intervals, then the external sender and a
+/// handler push a burst of 256 KiB unicasts and broadcasts while client 1 (small receive buffer) does not
+/// read for a few hundred ms: every message must still arrive complete, exactly once, in order.
+fn random_run(run: i64, rng: &mut Rng, maxclients: usize, kind: u8) -> RunOut {
+    let chatty = kind == 1;
+    let bigpush = kind == 2;
     let mut nclients = rng.range(1, maxclients);
     let mut workers = *rng.pick(&[1usize, 1, 2, 2, 3, 4, 5, 6, 7, 8]);
     let mut poll = match rng.below(4) {
@@ -988,6 +1050,15 @@ fn random_run(run: i64, rng: &mut Rng, maxclients: usize, chatty: bool) -> RunOu
         internal = rng.chance(1, 3);
         big = false;
     }
+    if bigpush {
+        nclients = rng.range(2, 3).min(maxclients.max(2));
+        workers = *rng.pick(&[1usize, 2]);
+        poll = Some(Duration::from_millis(rng.range(1, 5) as u64));
+        hb_on = false;
+        heartbeat = None;
+        internal = rng.chance(1, 3);
+        big = false;
+    }
     let pol = |rng: &mut Rng, allow_uni: bool| -> Vec<String> {
         let n = *rng.pick(&[0usize, 1, 1, 1, 2]);
         (0..n).map(|_| if allow_uni && rng.chance(1, 2) { "uni".to_string() } else { "bc".to_string() }).collect()
@@ -998,6 +1069,11 @@ fn random_run(run: i64, rng: &mut Rng, maxclients: usize, chatty: bool) -> RunOu
         policy = [vec![], if rng.chance(1, 2) { vec!["uni".to_string()] } else { vec![] }, vec![]];
         hsleep_us = 0;
     }
+    if bigpush {
+        policy = [vec![], vec!["bc".to_string()], vec![]];
+        hsleep_us = 0;
+    }
+    let late_ms = rng.range(300, 600) as u64;
     let ctx = Ctx::new(false, policy.clone(), hsleep_us, big, heartbeat.map(|(i, t)| (i.as_micros() as u64, t.as_micros() as u64)).unwrap_or((0, 0)));
     {
         let mut r = rec("Reset");
@@ -1042,6 +1118,15 @@ fn random_run(run: i64, rng: &mut Rng, maxclients: usize, chatty: bool) -> RunOu
             ops = if id == 1 { vec![Op::Chat { dur_ms: span_ms, every_us: rng.range(1000, 2500) as u64 }] } else { vec![Op::Sleep((span_ms + 30) * 1000)] };
             end = if id == 1 || rng.chance(1, 2) { EndOp::Close } else { EndOp::Stay };
         }
+        if bigpush {
+            late = false;
+            ops = if id == 2 {
+                vec![Op::Sleep(70_000), Op::Send { frags: 1, pause_us: 0 }, Op::Send { frags: 1, pause_us: 0 }, Op::Sleep((late_ms + 100) * 1000)]
+            } else {
+                vec![Op::Sleep((late_ms + 200) * 1000)]
+            };
+            end = EndOp::Stay;
+        }
         plans.push(json!({"c": id, "ops": format!("{:?}", ops), "end": format!("{:?}", end)}));
         let (ctx2, addrs2, failed2, live2) = (ctx.clone(), addrs.clone(), failed.clone(), live.clone());
         let (server_addr, path) = (server.addr, server.path);
@@ -1057,6 +1142,9 @@ fn random_run(run: i64, rng: &mut Rng, maxclients: usize, chatty: bool) -> RunOu
                 }
             };
             addrs2.lock().unwrap().insert(id, cl.addr);
+            if bigpush && id == 1 {
+                cl.small_rcvbuf();
+            }
             if late {
                 sleep(Duration::from_millis(12)); // stays silent across several loop iterations after the connect
             }
@@ -1093,8 +1181,28 @@ fn random_run(run: i64, rng: &mut Rng, maxclients: usize, chatty: bool) -> RunOu
         }));
     }
     // external sender
-    let nx = *rng.pick(&[0usize, 0, 1, 2, 4]);
+    let mut nx = *rng.pick(&[0usize, 0, 1, 2, 4]);
     let mut xi = 0i64;
+    if bigpush {
+        nx = 0;
+        // everybody admitted and polled idle for a while; then client 1 stops reading and the burst starts
+        ctx.wait_until(Duration::from_secs(5), |g| (1..=nclients).all(|c| g.admitted[c]));
+        sleep(Duration::from_millis(40));
+        ctx.huge.store(256 * 1024, Ordering::SeqCst);
+        ctx.holds[1].store(true, Ordering::SeqCst);
+        let a1 = addrs.lock().unwrap().get(&1).copied();
+        let burst = rng.range(14, 18);
+        for _ in 0..burst {
+            if let Some(a) = a1 {
+                xi += 1;
+                x_send(&ctx, &server.sender, xi, "uni", 1, Some(a));
+            }
+            xi += 1;
+            x_send(&ctx, &server.sender, xi, "bc", 0, None);
+        }
+        sleep(Duration::from_millis(late_ms));
+        ctx.holds[1].store(false, Ordering::SeqCst);
+    }
     let t0 = Instant::now();
     let mut x_times: Vec<u64> = (0..nx).map(|_| rng.below(40_000) as u64).collect();
     x_times.sort();
@@ -1166,13 +1274,13 @@ fn random_run(run: i64, rng: &mut Rng, maxclients: usize, chatty: bool) -> RunOu
     RunOut {
         events,
         info: json!({"run": run, "clients": nclients, "workers": workers, "poll_us": poll.map(|d| d.as_micros() as i64).unwrap_or(-1),
-            "heartbeat": hb_on, "chatty": chatty, "internal_app": internal, "policy": policy, "hsleep_us": hsleep_us, "settled": settled, "early_shutdown": early,
+            "heartbeat": hb_on, "chatty": chatty, "bigpush": bigpush, "late_reader_ms": if bigpush { late_ms } else { 0 }, "internal_app": internal, "policy": policy, "hsleep_us": hsleep_us, "settled": settled, "early_shutdown": early,
             "returned": returned, "plans": plans, "ext": nx}),
         setup_failed,
     }
 }
 
-fn random_mode(runs: usize, first: i64, maxclients: usize, chatty_runs: usize) {
+fn random_mode(runs: usize, first: i64, maxclients: usize, chatty_runs: usize, big_runs: usize) {
     let mut rng = Rng::new(seed_from_env() ^ (first as u64).wrapping_mul(0x9E37_79B9));
     let mut total = 0usize;
     let mut retried = 0usize;
@@ -1180,7 +1288,8 @@ fn random_mode(runs: usize, first: i64, maxclients: usize, chatty_runs: usize) {
     let mut stats: HashMap<String, usize> = HashMap::new();
     let mut run = first;
     while total < runs {
-        let out = random_run(run, &mut rng, maxclients, total < chatty_runs);
+        let kind = if total < chatty_runs { 1 } else if total < chatty_runs + big_runs { 2 } else { 0 };
+        let out = random_run(run, &mut rng, maxclients, kind);
         if out.setup_failed {
             retried += 1;
             if retried > 10 {
@@ -1522,7 +1631,8 @@ fn main() {
             let first: i64 = a.get(3).and_then(|s| s.parse().ok()).unwrap_or(1);
             let maxc: usize = a.get(4).and_then(|s| s.parse().ok()).unwrap_or(MAXC).min(MAXC).max(1);
             let chatty: usize = a.get(5).and_then(|s| s.parse().ok()).unwrap_or(0);
-            random_mode(runs, first, maxc, chatty)
+            let bigr: usize = a.get(6).and_then(|s| s.parse().ok()).unwrap_or(0);
+            random_mode(runs, first, maxc, chatty, bigr)
         }
         Some("replay") => replay_mode(a.get(2).and_then(|s| s.parse().ok()).unwrap_or(3)),
         _ => {
